@@ -74,7 +74,9 @@ class Ctx:
         self.repo = repo_path()
         self.t0 = time.time()
         self.rng = random.Random(seed * 1000003 + sum(ord(c) for c in pid))
-        self.work = os.path.join(VERIF, "work", "%s-%s" % (pid, tier))
+        # VERIF_WORKTAG keeps concurrent runs of one check (e.g. against different scratch trees) out of each other's way
+        self.worktag = os.environ.get("VERIF_WORKTAG", "")
+        self.work = os.path.join(VERIF, "work", "%s-%s%s" % (pid, tier, self.worktag))
         if os.path.isdir(self.work):
             shutil.rmtree(self.work, ignore_errors=True)
         os.makedirs(self.work, exist_ok=True)
